@@ -1802,6 +1802,55 @@ def run_input_forms(case):
     return o
 
 
+# --------------------------------------------------------------------------
+# string tables with many distinct strings (index widths 8 / 16 / 32 bit)
+# --------------------------------------------------------------------------
+_STRING_TABLE_SIZES = [255, 256, 257, 32767, 32768, 32769, 65535, 65536, 65537, 70000]
+
+
+def enum_string_tables(tier):
+    for n in _STRING_TABLE_SIZES:
+        for how in ("default", "explicit_int32", "compress", "file"):
+            yield {"distinct": n, "how": how}
+
+
+def run_string_table(case):
+    import io as _io
+
+    from biotite.structure.io import pdbx
+    from biotite.structure.io.pdbx import BinaryCIFData, ByteArrayEncoding, StringArrayEncoding
+
+    o = Outcome()
+    n, how = case["distinct"], case["how"]
+    rng = np.random.default_rng(n)
+    # distinct strings in an order that is neither sorted nor grouped; some repeated, '' included
+    strings = np.array([f"id_{i}" for i in range(n - 1)] + [""])
+    x = strings[rng.permutation(n)]
+    x = np.concatenate([x, x[: min(50, n)]])
+    want = x.tolist()
+    o.label(f"distinct={n}", how)
+    o.mark_nontrivial()
+    if how == "default":
+        enc = StringArrayEncoding()
+        y = enc.decode(enc.encode(x))
+    elif how == "explicit_int32":
+        enc = StringArrayEncoding(data_encoding=[ByteArrayEncoding()], offset_encoding=[ByteArrayEncoding()])
+        y = enc.decode(enc.encode(x))
+    elif how == "compress":
+        data = pdbx.compress(BinaryCIFData(x))
+        y = BinaryCIFData.deserialize(_msgpack_roundtrip(data.serialize())).array
+    else:
+        f = pdbx.BinaryCIFFile()
+        f["b"] = pdbx.BinaryCIFBlock()
+        f["b"]["c"] = pdbx.BinaryCIFCategory({"v": x})
+        bio = _io.BytesIO()
+        f.write(bio)
+        bio.seek(0)
+        y = pdbx.BinaryCIFFile.read(bio)["b"]["c"]["v"].as_array(str)
+    o.check_eq(np.asarray(y).tolist(), want, "string_roundtrip_exact", f"{n} distinct strings ({how})")
+    return o
+
+
 ENUMS = [
     Enum(
         "int_boundaries",
@@ -1809,6 +1858,14 @@ ENUMS = [
         run_chain,
         rule="every case holds the limits of its type",
         clauses="8 integer types x 12 chain shapes (delta? rle? pack none|1|2, bytes) x 9 fixed boundary arrays, inferred and explicit parameters",
+        exhaustive=True,
+    ),
+    Enum(
+        "string_tables",
+        enum_string_tables,
+        run_string_table,
+        rule="255..70000 distinct strings in shuffled order (index width boundaries of the string table)",
+        clauses="strings decode exactly through StringArrayEncoding, compress() and a written BinaryCIF file",
         exhaustive=True,
     ),
     Enum(
